@@ -6,7 +6,7 @@ from vf import gen, corecheck as cc, framework as fw
 RULE = ("scenarios (random API programs with scripted re-entrant callbacks, see vf/gen.py) from the profiles mixed, "
         "hostile_lifetime (bursts past the mailbox capacity; self stop/deregister/unsubscribe with mail in flight; a module "
         "stopped/deregistered/paused by another one while it has events in the same poll batch; events of every kind retained past "
-        "source, module and context; auto-free to 0/1/many recipients; re-subscription with other flags), last_ref / ctx_gone (a module or the whole context goes away inside a callback because the reference given to m_mod_deregister was the last one) run on the asan build; "
+        "source, module and context; auto-free to 0/1/many recipients; re-subscription with other flags), last_ref / ctx_gone (a module or the whole context goes away inside a callback because the reference given to m_mod_deregister was the last one) (every third mixed/hostile scenario runs without the harness's observation references, so released memory is really released) run on the asan build; "
         "plus a slice of fresh scenarios on the plain build under valgrind memcheck; "
         "violated by any ASan/UBSan/LSan/memcheck report or fatal signal, a free() of a block the accounting allocator does not hold, "
         "blocks outstanding after the context is gone and every user reference dropped, a zombie not answering its name, a "
@@ -59,6 +59,8 @@ def build_cases(tier, seed):
             c.sc, c.profile = gen.gen_mixed(s), "mixed"
         else:
             c.sc, c.profile = gen.gen_hostile(s), "hostile_lifetime"
+        if i % 3 == 2:
+            c.sc = gen.without_observation_refs(c.sc)
         c.mode = "loop" if (i // 10) % 2 == 0 else "dispatch"
         c.seed = s
         cases.append(c)
